@@ -19,7 +19,7 @@ RULE = ("case = one history of 60 random operations (index read/write with i in 
 ASSUMPTIONS = ["offsets are bounded so that i*sizeof(T) stays below 2**62 (beyond that C itself is undefined)",
                "non-integer keys are not generated; slices of a plain pointer are unbounded by design (C semantics)"]
 
-KINDS = [('signed char', 'b'), ('unsigned char', 'B'), ('short', 'h'), ('unsigned short', 'H'),
+KINDS = [('char', 'c'), ('signed char', 'b'), ('unsigned char', 'B'), ('short', 'h'), ('unsigned short', 'H'),
          ('int', 'i'), ('unsigned int', 'I'), ('long', 'q'), ('unsigned long long', 'Q'),
          ('float', 'f'), ('double', 'd'), ('void *', 'Q'), ('struct sp', None), ('short[2]', None)]
 CDEF = "struct sp { short a; char b; };"
@@ -86,6 +86,9 @@ class H(object):
             lo, hi = gen.int_range(size, signed)
             v = rnd.choice([lo, hi, 0, 1, rnd.randint(lo, hi)])
             return v, struct.pack('<' + self.fmt, v)
+        if self.fmt == 'c':
+            v = bytes([rnd.randrange(256)])
+            return v, v
         if self.fmt == 'f':
             v = struct.unpack('<f', struct.pack('<I', rnd.getrandbits(32) & 0x7f7fffff))[0]
             return v, struct.pack('<f', v)
@@ -276,11 +279,15 @@ class H(object):
             cnt = max(0, want + delta)
             vals = [self.rand_value() for _ in range(cnt)]
             srckind = rnd.choice(['list', 'tuple', 'gen', 'cdata', 'bytes'])
-            if srckind == 'bytes' and self.T not in ('signed char', 'unsigned char'):
-                srckind = 'list'
+            if srckind == 'bytes' and self.T != 'char':
+                srckind = 'list'     # the bytes/bytearray fast path exists for 'char' only
             if srckind == 'bytes':
-                srckind = 'list'     # bytes fast path exists for 'char' only (see C19)
-            if srckind == 'cdata':
+                raw = b''.join(b for v, b in vals)
+                src = raw if rnd.random() < 0.5 else bytearray(raw)
+                srckind = type(src).__name__
+            if srckind in ('bytes', 'bytearray'):
+                pass
+            elif srckind == 'cdata':
                 tmp = ffi.new(self.tarr(cnt))
                 if cnt:
                     ffi.buffer(tmp)[:] = b''.join(b for v, b in vals)
@@ -372,7 +379,10 @@ class H(object):
                              (self.desc(), i, a, i, x + i))
             self.rep.stat('addressof')
         elif op == 'offsetof':
-            i = rnd.choice([0, 1, n, rnd.randint(0, 10 ** 6), rnd.randint(-5, 5)])
+            lim = (2 ** 63) // max(s, 1)
+            i = rnd.choice([0, 1, n, rnd.randint(0, 10 ** 6), rnd.randint(-5, 5),
+                            lim + rnd.randint(-2, 2), -lim + rnd.randint(-2, 2),
+                            rnd.randint(-lim, lim), 2 ** 62, -2 ** 62, 2 ** 63 - 1, -2 ** 63])
             key = (op, i)
             for spec in (ffi.getctype(ffi.typeof(self.T), '[]'),
                          ffi.typeof(ffi.getctype(ffi.typeof(self.T), '[]')),
@@ -380,9 +390,16 @@ class H(object):
                          ffi.getctype(ffi.typeof(self.T), '*')):
                 try:
                     o = ffi.offsetof(spec, i)
+                except OverflowError:
+                    if -2 ** 63 <= i * s < 2 ** 63:
+                        self.bad('offsetof-raised', 'offsetof(%r, %d) raised OverflowError although '
+                                 'the offset %d fits' % (spec, i, i * s))
+                    self.rep.stat('offsetof_overflow_rejected')
+                    continue
                 except Exception as e:
-                    self.bad('offsetof-raised', 'offsetof(%r, %d) raised %s' %
-                             (spec, i, type(e).__name__))
+                    if -2 ** 63 <= i < 2 ** 63:     # an index that is not even a ssize_t may
+                        self.bad('offsetof-raised', 'offsetof(%r, %d) raised %s' %   # raise anything
+                                 (spec, i, type(e).__name__))
                     continue
                 if o != i * s:
                     self.bad('offsetof-value', 'offsetof(%r, %d) = %d, expected %d' %
